@@ -54,10 +54,24 @@ theorem in_contains_converse (rx : Rx) (a b : V) :
 
 /-- Membership in arrays (some element equal), strings (substring) and object keys (member name). -/
 theorem membership_spec (rx : Rx) (item : J) :
-    (∀ xs, compare rx (.val item) .in_ (.val (.arr xs)) = xs.any (fun x => pyEq item x)) ∧
+    (∀ xs, compare rx (.val item) .in_ (.val (.arr xs)) = xs.any (fun x => item.eqv x)) ∧
     (∀ s t, compare rx (.val (.str t)) .in_ (.val (.str s)) = isInfix t s) ∧
     (∀ kvs k, compare rx (.val (.str k)) .in_ (.val (.obj kvs)) = dictHas kvs k) :=
   Lemmas.membership_spec rx item
+
+/-- Membership in an array uses the equality of `==`: an element is found exactly when comparing it with `==`
+    is true, so a number is not found among booleans, at any depth. -/
+theorem membership_uses_filter_equality (rx : Rx) (item : J) (xs : List J) :
+    compare rx (.val item) .in_ (.val (.arr xs)) = xs.any (fun x => compare rx (.val item) .eq (.val x)) := by
+  rfl
+
+/-- An operand that selects nothing (or several nodes) is not a value and is a member of nothing - not even of an
+    array that holds an empty array. -/
+theorem absent_never_member (rx : Rx) (ns : List Node) (c : V) :
+    compare rx (.nodes ns) .in_ c = false ∧ compare rx c .contains (.nodes ns) = false := by
+  constructor <;> cases c with
+  | val j => cases j <;> simp [Query.compare, containsV, eqVJ]
+  | _ => simp [Query.compare, containsV]
 
 /-- `isInfix` is the substring relation. -/
 theorem substring_spec (t s : Str) : isInfix t s = true ↔ ∃ pre post, s = pre ++ t ++ post :=
